@@ -2,7 +2,7 @@ import vf
 
 SPEC = dict(
     level="proof",
-    harness=dict(pkg_dir="cmd/zoekt-local-sync", run="TestVerifC33$", files=["cmd/zoekt-local-sync/zz_verif_c33_test.go"],
+    harness=dict(pkg_dir="cmd/zoekt-local-sync", run="TestVerifC34$", files=["cmd/zoekt-local-sync/zz_verif_c33_test.go", "cmd/zoekt-local-sync/zz_verif_c34_test.go"],
                  n_quick=120, n_thorough=1500, pkg_name="main"),
     runner=dict(imports=["From ZV Require Import Lib.Base Model.LocalSync."], case_type="lscase",
                 mismatch_fn="ls_mismatches", shard=100),
